@@ -23,7 +23,8 @@ runtime slots (`@0` = the runtime under test, `@1` = a freshly built twin).
     ci <target> <val>                        VAR_CONFIG initial value
   operations (each answered by a dump line)
     @k build | copyin <j> | cycle <dt> | io <area> <size> <byte> <bit> <raw> | restart cold|warm |
-       store <0|1> | save | load | envw <0|1> (store writable or not) | fault | wacc <name> <val>
+       store <0|1> | save | load | envw <0|1> (store writable or not) | fault | wacc <name> <val> |
+       driver <ni> <nq> <nm> (size the images, register a field driver) | field <hex> (field input bytes)
   values   n<ty>:<int>  s<ty>:<hex>  a<lo>_<hi>;..[v,..]  r{f=v,..}  ~  &
   targets  g:<name> | l:<name> | p:<prog>:<name>   then /m=<member> /f=<field> /i=<i>,<j>
 -/
@@ -376,7 +377,7 @@ def showVar (ns : Names) (s : Storage) : Val → String
   | .inst id => showInstance ns s id
   | v => showVal ns v
 
-def dump (ns : Names) (rt : Runtime) (res : Option Err) (disk : Disk := {}) : String :=
+def dump (ns : Names) (rt : Runtime) (res : Option Err) (disk : Disk := {}) (showDrv : Bool := false) : String :=
   let s := rt.storage
   let globals := rt.globalsMeta.map fun m =>
     s!"{ns.show m.name}=" ++ (match s.getGlobal m.name with | some v => showVar ns s v | none => "?")
@@ -395,6 +396,11 @@ def dump (ns : Names) (rt : Runtime) (res : Option Err) (disk : Disk := {}) : St
   s!"f={if rt.fault.isSome then 1 else 0} lf={match rt.fault with | none => "-" | some e => showErr e} " ++
   s!"fr={rt.storage.frames} ov={if ov.isEmpty then "-" else joinWith "," ov} " ++
   s!"I={showHex (trimZeros rt.io.inputs)} Q={showHex (trimZeros rt.io.outputs)} M={showHex (trimZeros rt.io.memory)} " ++
+  s!"LI={rt.io.inputs.length} LQ={rt.io.outputs.length} LM={rt.io.memory.length} " ++
+  (let showLen (o : Option Nat) : String := match o with | some n => toString n | none => "-"
+   match (if showDrv then rt.driver else none) with
+   | some d => s!"DI={showLen d.seenIn} DQ={showLen d.seenOut} "
+   | none => "DI=- DQ=- ") ++
   s!"dead={rt.deadBindings} acc={if acc.isEmpty then "-" else joinWith "," acc} " ++
   s!"S={match disk.file with
         | some (e :: es) => joinWith "," ((e :: es).map fun (n, v) => s!"{ns.show n}={showVal ns v}")
@@ -436,7 +442,19 @@ def opLine (st : St) (k : Nat) (ws : List String) : St × String :=
     match dt.toInt?, st.slot k with
     | some dt, some rt =>
       let (rt, disk, res) := cycle (advanceTime rt dt) st.disk
-      ({ st.setSlot k rt with disk := disk }, "m " ++ dump ns rt res disk)
+      ({ st.setSlot k rt with disk := disk }, "m " ++ dump ns rt res disk true)
+    | _, _ => bad
+  | ["driver", ni, nq, nm] =>
+    match ni.toNat?, nq.toNat?, nm.toNat?, st.slot k with
+    | some ni, some nq, some nm, some rt =>
+      let rt := addDriver (resizeIo rt ni nq nm)
+      (st.setSlot k rt, "m " ++ dump ns rt none st.disk)
+    | _, _, _, _ => bad
+  | ["field", h] =>
+    match parseHex? h, st.slot k with
+    | some bs, some rt =>
+      let rt := setField rt bs
+      (st.setSlot k rt, "m " ++ dump ns rt none st.disk)
     | _, _ => bad
   | ["io", a, s, b, bit, raw] =>
     match parseAddr? a s b bit, raw.toNat?, st.slot k with
